@@ -28,9 +28,20 @@ generation whose `exitedCh` is ever read again is the one in the map; since the 
 A constructor may return a nil `Routine` (`env nilnext k`: the harness' constructor will do so at
 its next call for `k`; `Rec.hasFn`).
 
-Not modelled (the harness never does it): cancelling a root context while it is installed (so
-`k.ctx.Err() != nil` never holds), condition functions of
-`ResetRoutine`/`RestartRoutine`, exit callbacks.
+The condition functions of `ResetRoutine` / `RestartRoutine` / `ResetAllRoutines` / `RestartAllRoutines`
+are lists of `Cond` (a nil function, "the key is k", "the data is even/odd"): the call applies to a key iff
+the list is empty or some non-nil function accepts (key, data) (`condsMatch`, `matchK`).
+
+The root context may be cancelled while it is installed (`env cancelroot`, between two calls): every
+instance's context is cancelled (`cancelAll`) and `ctx` becomes `some 0` = "a cancelled context is
+installed" (it is never installed again, so its identity does not matter; real context ids are ≥ 1).
+`SyncKeys`, `resetRoutineLocked` and `restartRoutineLocked` forget such a context before they do anything
+else (`preOp`, applied by the `exec` step); every other path that starts a routine (`SetKey(start)`,
+`SetContext` with the same context, the retry timer) starts it with the cancelled context: the instance is
+born cancelled (`start`), fails without entering its function and is recorded like any failure.
+
+Exit callbacks (`WithExitCb`) run without the mutex, after the exit bookkeeping: one that calls back into
+the object is one more caller (`inv`/`exec`/`ret`); nothing else about them is modelled.
 
 Several callers may be active at once (`calls`): each call is `inv`, its one critical section
 `exec id`, its constructor lines, `ret`. A timer callback is a goroutine that takes `Keyed.mtx` in
@@ -121,6 +132,22 @@ structure RefSt where
   listed : Bool := true
 deriving DecidableEq, Repr, Hashable
 
+/-- a condition function over (key, data) as the harness passes them to `ResetRoutine` & co.: a nil
+function, "the key is `k`", "the data is even/odd" -/
+inductive Cond where
+  | nil
+  | keyIs (k : Nat)
+  | dataPar (p : Nat)
+deriving DecidableEq, Repr, Hashable
+
+def Cond.eval : Cond → Nat → Nat → Bool
+  | .nil, _, _ => false
+  | .keyIs k', k, _ => k == k'
+  | .dataPar p, _, d => d % 2 == p
+
+/-- keyed.go:310-316 / 385-391: no condition functions, or some non-nil one accepts (key, data) -/
+def condsMatch (cs : List Cond) (k d : Nat) : Bool := cs.isEmpty || cs.any fun c => c.eval k d
+
 inductive Op where
   | setKey (k : Nat) (start : Bool)
   | removeKey (k : Nat)
@@ -128,10 +155,10 @@ inductive Op where
   | getKey (k : Nat)
   | getKeys
   | getKeysWithData
-  | resetRoutine (k : Nat)
-  | restartRoutine (k : Nat)
-  | resetAll
-  | restartAll
+  | resetRoutine (k : Nat) (cs : List Cond)
+  | restartRoutine (k : Nat) (cs : List Cond)
+  | resetAll (cs : List Cond)
+  | restartAll (cs : List Cond)
   | setContext (c : Option Nat) (restart : Bool)
   | addKeyRef (k : Nat)
   | release (r : Nat)
@@ -225,8 +252,30 @@ def chClosed (x : G) : Option Nat → Bool
     | some y => y.st == .closed || y.st == .recorded
     | none => false
 
+/-- a root context is installed and not cancelled. Context ids are ≥ 1; `some 0` stands for "the installed
+root context has been cancelled" (`env cancelroot`): such a context is never installed again, so its
+identity no longer matters -/
+def isLive : Option Nat → Bool
+  | some (_ + 1) => true
+  | _ => false
+
+/-- `if k.ctx != nil && k.ctx.Err() != nil { k.ctx = nil }` (keyed.go:206, 301, 373) -/
+def dropDead (s : St) : St := if s.ctx = some 0 then { s with ctx := none } else s
+
+def instsLen (s : St) (g : Nat) : Nat :=
+  match s.gens[g]? with
+  | some y => y.insts.length
+  | none => 0
+
+/-- the contexts of all instances of generation `g` are cancelled -/
+def cancelGen (s : St) (g : Nat) : St := (List.range (instsLen s g)).foldl (fun s i => cancelOpt s g (some i)) s
+
+/-- cancelling the root context cancels every context derived from it -/
+def cancelAll (s : St) : St := (List.range s.gens.length).foldl cancelGen s
+
 /-- `r.start(ctx, r.exitedCh, force)` for the record `r` of key `k` (routine.go:73-95); the caller
-has checked `k.ctx != nil` -/
+has checked `k.ctx != nil` (a cancelled root context that is still installed counts: the new instance's
+context is cancelled from the start) -/
 def start (s : St) (k : Nat) (r : Rec) (force : Bool) : St :=
   if (!force && r.success) || !r.hasFn then s
   else if !force && r.cur.isSome && !r.exited && !instCancelled s r.gen r.cur then s
@@ -237,7 +286,8 @@ def start (s : St) (k : Nat) (r : Rec) (force : Bool) : St :=
     | some x =>
       let i := x.insts.length
       let s2 := modG s1 r.gen fun x =>
-        { x with insts := x.insts ++ [{ rid := r.id, data := r.data, waitOn := x.last }], last := some i }
+        { x with insts := x.insts ++ [{ rid := r.id, data := r.data, waitOn := x.last, cancelled := s.ctx == some 0 }],
+                 last := some i }
       setRec s2 k (some { r with deferRetry := none, err := false, success := false, exited := false,
                                  cur := some i, cancelOf := some i })
 
@@ -359,6 +409,13 @@ def restartKey (s : St) (k : Nat) : St × Bool × Bool :=
       let s1 := setRec (cancelOpt s r.gen r.cancelOf) k (some { r with cancelOf := none })
       (startKey s1 k true, true, true)
 
+/-- the condition functions of `ResetRoutine` & co. accept the record of `k` (they are not asked about a key
+that is not in the map; a reset of another key does not change what they say about `k`) -/
+def matchK (s : St) (cs : List Cond) (k : Nat) : Bool :=
+  match s.key k with
+  | some r => condsMatch cs k r.data
+  | none => true
+
 def resetAllStep (acc : St × List (Nat × Nat)) (k : Nat) : St × List (Nat × Nat) :=
   let r := resetKey acc.1 k
   (r.1, acc.2 ++ r.2.1)
@@ -405,23 +462,36 @@ def execOp (s : St) : Op → St × List (Nat × Nat) × Res
   | .getKeys => (s, [], .keys (keyList s))
   | .getKeysWithData =>
     (s, [], .keysData ((keyList s).filterMap fun k => (s.key k).map fun r => (k, r.data)))
-  | .resetRoutine k => let r := resetKey s k; (r.1, r.2.1, .existedReset r.2.2 r.2.2)
-  | .restartRoutine k => let r := restartKey s k; (r.1, [], .existedReset r.2.1 r.2.2)
-  | .resetAll =>
-    let r := (keyList s).foldl resetAllStep (s, [])
-    (r.1, r.2, .counts (keyList s).length (keyList s).length)
-  | .restartAll =>
-    let r := (keyList s).foldl restartAllStep (s, 0)
+  | .resetRoutine k cs =>
+    if matchK s cs k then let r := resetKey s k; (r.1, r.2.1, .existedReset r.2.2 r.2.2)
+    else (s, [], .existedReset (present s k) false)
+  | .restartRoutine k cs =>
+    if matchK s cs k then let r := restartKey s k; (r.1, [], .existedReset r.2.1 r.2.2)
+    else (s, [], .existedReset (present s k) false)
+  | .resetAll cs =>
+    let r := ((keyList s).filter (matchK s cs)).foldl resetAllStep (s, [])
+    (r.1, r.2, .counts ((keyList s).filter (matchK s cs)).length (keyList s).length)
+  | .restartAll cs =>
+    let r := ((keyList s).filter (matchK s cs)).foldl restartAllStep (s, 0)
     (r.1, [], .counts r.2 (keyList s).length)
   | .setContext c restart => (setContext s c restart, [], .unit)
   | .addKeyRef k => addKeyRef s k
   | .release r => (release s r, [], .unit)
   | .rcRemoveKey k => let r := rcRemoveKey s k; (r.1, [], .bool r.2)
 
+/-- the calls that look at the root context first and forget it when it is cancelled (keyed.go:206-208 in
+`SyncKeys`, 301-303 / 373-375 in `resetRoutineLocked` / `restartRoutineLocked`, i.e. once per key) -/
+def preOp (s : St) : Op → St
+  | .syncKeys _ _ | .resetRoutine _ _ | .restartRoutine _ _ => dropDead s
+  | .resetAll _ | .restartAll _ => if (keyList s).isEmpty then s else dropDead s
+  | _ => s
+
 /-- which calls exist on the object under test -/
 def Op.allowed (rc : Bool) : Op → Bool
   | .setKey _ _ | .removeKey _ | .syncKeys _ _ => !rc
   | .addKeyRef _ | .release _ | .rcRemoveKey _ => rc
+  -- a root context that was cancelled (`some 0`) is not installed again
+  | .setContext (some 0) _ => false
   | _ => true
 
 /-! ## time -/
@@ -515,6 +585,7 @@ inductive Ev where
   | quiesce
   | probe (j : Nat) (cancelled : Bool)
   | nilnext (k : Nat)
+  | cancelroot
 deriving DecidableEq, Repr, Hashable
 
 /-- what the harness logs -/
@@ -529,6 +600,7 @@ inductive Obs where
   | quiesce
   | probe (j : Nat) (cancelled : Bool)
   | nilnext (k : Nat)
+  | cancelroot
 deriving DecidableEq, Repr, Hashable
 
 def Ev.obs : Ev → Option Obs
@@ -542,6 +614,7 @@ def Ev.obs : Ev → Option Obs
   | .quiesce => some .quiesce
   | .probe j c => some (.probe j c)
   | .nilnext k => some (.nilnext k)
+  | .cancelroot => some .cancelroot
   | _ => none
 
 /-- the operation of the invoked call `id` whose critical section has not run yet -/
@@ -581,7 +654,7 @@ def step (s : St) : Ev → Option St
   | .exec id =>
     match pendingOp s.calls id with
     | some op =>
-      let r := execOp s op
+      let r := execOp (preOp s op) op
       some { r.1 with calls := s.calls.map fun c => if c = .invoked id op then .done id r.2.1 r.2.2 else c }
     | none => none
   | .ctor k d =>
@@ -646,6 +719,9 @@ def step (s : St) : Ev → Option St
       | none => none
   | .nilnext k =>
     if s.cfg.isSome then some { s with nilNext := k :: s.nilNext.filter (· != k) } else none
+  | .cancelroot =>
+    -- the harness cancels the installed root context between two calls
+    if s.calls = [] ∧ isLive s.ctx then some (cancelAll { s with ctx := some 0 }) else none
 
 /-- internal events worth trying -/
 def cands (s : St) : List Ev :=
@@ -675,6 +751,7 @@ def evsOf (s : St) : Obs → List Ev
   | .quiesce => [.quiesce]
   | .probe j c => [.probe j c]
   | .nilnext k => [.nilnext k]
+  | .cancelroot => [.cancelroot]
 
 def model : OLTS St Ev Obs where
   init := {}
@@ -697,6 +774,18 @@ def pPairs : List String → Option (List (Nat × Nat))
   | [_] => none
   | a :: b :: xs => do let x ← a.toNat?; let y ← b.toNat?; let r ← pPairs xs; pure ((x, y) :: r)
 
+/-- condition functions: `nil`, `key=K`, `par=P` -/
+def pCond (x : String) : Option Cond :=
+  if x == "nil" then some .nil
+  else match x.splitOn "=" with
+    | ["key", k] => do pure (.keyIs (← k.toNat?))
+    | ["par", p] => do pure (.dataPar (← p.toNat?))
+    | _ => none
+
+def pConds : List String → Option (List Cond)
+  | [] => some []
+  | x :: xs => do let c ← pCond x; let r ← pConds xs; pure (c :: r)
+
 def pOp : List String → Option Op
   | ["setkey", k, st] => do pure (.setKey (← k.toNat?) (← pBool "start" "nostart" st))
   | ["removekey", k] => do pure (.removeKey (← k.toNat?))
@@ -704,10 +793,10 @@ def pOp : List String → Option Op
   | ["getkey", k] => do pure (.getKey (← k.toNat?))
   | ["getkeys"] => some .getKeys
   | ["getkeysdata"] => some .getKeysWithData
-  | ["reset", k] => do pure (.resetRoutine (← k.toNat?))
-  | ["restart", k] => do pure (.restartRoutine (← k.toNat?))
-  | ["resetall"] => some .resetAll
-  | ["restartall"] => some .restartAll
+  | "reset" :: k :: cs => do pure (.resetRoutine (← k.toNat?) (← pConds cs))
+  | "restart" :: k :: cs => do pure (.restartRoutine (← k.toNat?) (← pConds cs))
+  | "resetall" :: cs => do pure (.resetAll (← pConds cs))
+  | "restartall" :: cs => do pure (.restartAll (← pConds cs))
   | ["setctx", c, r] => do
     let c ← c.toNat?
     pure (.setContext (if c = 0 then none else some c) (← pBool "restart" "norestart" r))
@@ -753,6 +842,7 @@ def Obs.parse : List String → Option Obs
   | ["quiesce"] => some .quiesce
   | ["probe", j, c] => do pure (.probe (← j.toNat?) (← pBool "cancelled" "live" c))
   | ["env", "nilnext", k] => do pure (.nilnext (← k.toNat?))
+  | ["env", "cancelroot"] => some .cancelroot
   | _ => none
 
 end UtilModel.Keyed
